@@ -36,7 +36,24 @@ func suiteC20(r *Run) {
 		sawBlocked := false
 		done := false
 		pendingSend := map[string]bool{}
+		csSendOpen, hReturned := false, false // a client SendMsg without a result yet; the handler function has returned
 		for _, st := range sc.steps {
+			if st.actor == "cs" && st.op == "send" {
+				csSendOpen = true
+			}
+			if _, ok := evRes(st.evs, "cs"); ok {
+				csSendOpen = false
+			}
+			if st.actor == "h" && st.op == "return" {
+				hReturned = true
+			}
+			// "…blocks until the peer receives, the peer finishes, or the context ends": once the handler has returned, a client
+			// send held back by the full buffer is released (the handler's own closing frames may still wait for the client to receive)
+			if hReturned && csSendOpen {
+				r.Violate("inproc/backpressure/send-blocked-after-peer-finished", "the next send blocks until the peer receives, the peer finishes, or the context ends",
+					sprintf("a client SendMsg was still blocked at quiescence after the handler had returned (step %q by %s)", st.op, st.actor), sc.desc(), sc.line())
+				break
+			}
 			if st.op == "send" {
 				pendingSend[st.actor] = true
 			} else if st.actor == "cs" || st.actor == "h" {
